@@ -61,8 +61,10 @@ CLAIMED = {
             "execution a single-threaded sweep (gets, full scans, insert+remove probes next to every key) must "
             "never reach a spin-wait (a lock left behind); exceeding the step bound is reported as inconclusive.",
             "Liveness is decided as bounded progress under the deterministic scheduler's fair default "
-            "continuation; unbounded starvation is out of reach of finite programs. The allocation-failure part "
-            "(C08 fault points on olc_db) is not covered by this check yet.",
+            "continuation; unbounded starvation is out of reach of finite programs. A quarter of the workers use "
+            "an NDEBUG harness build (assertion-enabled builds can turn a would-be hang into an abort). The "
+            "allocation-failure part (C08 fault points on olc_db) is decided by check C08, whose harness treats any "
+            "spin-wait reached single-threaded as a lock left held.",
             "schedule enumeration with deadlock / lock-left-behind / bounded-progress verdicts", "5 C14"),
     "C05": ("qsbr", "exploration",
             "Programs of 2-4 real QSBR threads over abstract objects (catalogue of epoch-change races scripted with "
@@ -137,6 +139,18 @@ CLAIMED = {
             "guard page placed directly after maxlen bytes; size bound len+3 asserted on every text.",
             "Trusted: normalisation oracle (truncate to maxlen, strip trailing zeros, NaNs unified, -0 != +0).",
             "property-based pair testing with prefix/equality oracle + guard-page fault injection", "5 C15"),
+    "C16": ("cfgx", "exploration",
+            "One seeded generator (independent of the build) produces histories of point operations and scans on all "
+            "three index classes (uint64 keys, byte-string keys <= 8 bytes); 16 executor binaries - {AVX2,SSE4.1} x "
+            "{stats on,off} x {assertions,NDEBUG} x {PAUSE,EMPTY} - replay them without any model; result-trace "
+            "hashes must agree in all 16, statistics-counter hashes in the 8 stats builds, every executor must exit "
+            "0 (assertion = SIGABRT, hang = CPU-time bound); disagreements are delta-debugged against the "
+            "disagreeing pair.",
+            "Reported memory use is compared only within the same SIMD level and assertion setting (node sizes "
+            "depend on vector alignment and on debug-only lock fields - comparing it across those was a false alarm "
+            "of the first version of this check). The spin-wait variants are compiled but a sequential history "
+            "executes neither spin body; contention runs under the scheduler use PAUSE only.",
+            "differential testing across a build-configuration matrix with delta-debugging", "5 C16"),
     "C17": ("qp", "exploration",
             "Stateful generated sequences over pools of qsbr_ptr and qsbr_ptr_span objects are compared step by step "
             "with a shadow model of raw pointers / spans; the liveness verdict is probed in forked children "
@@ -196,6 +210,9 @@ def main():
             {"name": "qsbr_fault", "path": "src/fault", "serves_properties": ["C08"],
              "kind_free_text": "generated QSBR scripts with the k-th-allocation fault loop around resume / thread "
                                "start / deallocation request; built without sanitizers, links test_heap.cpp"},
+            {"name": "cfgx", "path": "src/cfgdiff", "serves_properties": ["C16"],
+             "kind_free_text": "model-free executor compiled in 16 build configurations; check.py diffs result / "
+                               "statistics hashes and delta-debugs disagreements"},
             {"name": "qp", "path": "src/qsbrptr", "serves_properties": ["C17"],
              "kind_free_text": "seeded stateful sequence generator + exhaustive short-sequence enumerator with "
                                "drop-one shrinking; two builds (assertions / NDEBUG+sanitizers); fork per liveness probe"},
